@@ -123,14 +123,20 @@ CHECKS = {
              "the real pure-Python ChaCha20-Poly1305 partial-tag code.",
         design="DESIGN.md section 5 C18"),
     "C19": dict(
-        text="PARTIAL (parsing / routing half): HomeKitAdvertisement and HomeKitEncryptedNotification parsing for every Apple "
-             "manufacturer-data byte string of length 0..24 (symbolic content, concrete id bytes) against the field-extraction spec; "
-             "BleController._device_detected with the real pairing-side handlers for every such advertisement x {no pairing, pairing "
-             "with cached state, pairing without cached state}: never raises, completes exactly the waiters registered for the "
-             "advertised id, ignores malformed data; encrypted notifications incl. authentic ones with unknown id / short plaintext. "
-             "The waiter half (async_find wake-ups under all schedules; mDNS) is NOT decided: it needs a running event loop.",
-        note="Trusted: ideal partial-tag AEAD, IntFlag constructors as identity, recorders for BleDiscovery/cache/task creation, z3. "
-             "BleController.async_find never registering its future is an observation no check here decides.",
+        text="PARTIAL: (a) HomeKitAdvertisement and HomeKitEncryptedNotification parsing for every Apple manufacturer-data byte string "
+             "of length 0..24 (symbolic content, concrete id bytes) against the field-extraction spec; BleController._device_detected "
+             "with the real pairing-side handlers for every such advertisement x {no pairing, pairing with cached state, pairing "
+             "without cached state}: never raises, completes exactly the waiters registered for the advertised id, ignores malformed "
+             "data; encrypted notifications incl. authentic ones with unknown id / short plaintext. (b) waiter half, hand-driven: the "
+             "real async_find coroutines of the BLE and the mDNS controller against every schedule of at most 4 (thorough: 5) events "
+             "over {next waiter starts, advertisement for id A / B, malformed advertisement, waiter k cancelled, waiter k's timeout "
+             "fires} with 2 (3) waiters over 2 ids, both resume orders, wake-ups optionally delayed past the next callback: woken by "
+             "the first valid advertisement for its id, AccessoryNotFoundError at the timeout, CancelledError when cancelled, no callback "
+             "raises. (c) HomeKitService.from_service_info over selector-built records (address lists, key/id spelling, numbers). "
+             "NOT decided: the aggregate Controller.async_find (asyncio.create_task/wait need a running loop), real timers.",
+        note="Trusted: ideal partial-tag AEAD, IntFlag constructors as identity, recorders for BleDiscovery/cache/task creation, harness "
+             "futures/timers standing in for asyncio's (state machine and Task.cancel/asyncio.timeout semantics as documented), z3. "
+             "In (b) and (c) every symbolic variable is a discrete selector: the guarantee equals bounded exhaustive exploration.",
         design="DESIGN.md section 5 C19"),
     "C10": dict(
         text="PARTIAL: (a) the back-off update expression is lifted from HomeKitConnection._reconnect's AST into z3 reals and the one-step "
